@@ -536,35 +536,22 @@ def r6_eq_hash(rep, ctx):
         # comparison that sits in one arm of an `or`, or behind a condition, lets equal objects hash differently).
         # Decided by the truth table of __eq__ over its leaf tests.
         from .. import booleval
-        leaves = []
-
-        def collect(x):
-            if isinstance(x, ast.BoolOp):
-                for v in x.values:
-                    collect(v)
-            elif isinstance(x, ast.UnaryOp) and isinstance(x.op, ast.Not):
-                collect(x.operand)
-            elif isinstance(x, ast.IfExp):
-                collect(x.test), collect(x.body), collect(x.orelse)
-            elif isinstance(x, (ast.Compare, ast.Call, ast.Attribute, ast.Name, ast.Subscript)):
-                k = ast.unparse(x).replace(" ", "")
-                if k not in leaves:
-                    leaves.append(k)
-
-        for st in own_statements(e.node):
-            if isinstance(st, ast.If):
-                collect(st.test)
-            elif isinstance(st, ast.Return) and st.value is not None:
-                collect(st.value)
-            elif isinstance(st, ast.Assign):
-                collect(st.value)
-        if leaves and len(leaves) <= 10 and len(e.params) >= 2:
+        if len(e.params) >= 2:
             me, ot = e.params[0], e.params[1]
+            try:
+                leaves, tt = booleval.truth_table_auto(e.node)
+            except booleval.Unknown:
+                leaves, tt = [], None
+
+            def leaf_nodes():
+                for x in ast.walk(e.node):
+                    if isinstance(x, ast.Compare) and len(x.ops) == 1:
+                        yield x
 
             def field_eq_atoms(f):
                 out = []
-                for st in ast.walk(e.node):
-                    if isinstance(st, ast.Compare) and len(st.ops) == 1 and isinstance(st.ops[0], ast.Eq):
+                for st in leaf_nodes():
+                    if isinstance(st.ops[0], ast.Eq):
                         l, r = st.left, st.comparators[0]
                         names_l = {(y.value.id, y.attr.lstrip("_")) for y in ast.walk(l) if isinstance(y, ast.Attribute) and isinstance(y.value, ast.Name)}
                         names_r = {(y.value.id, y.attr.lstrip("_")) for y in ast.walk(r) if isinstance(y, ast.Attribute) and isinstance(y.value, ast.Name)}
@@ -572,17 +559,16 @@ def r6_eq_hash(rep, ctx):
                             out.append(ast.unparse(st).replace(" ", ""))
                 return out
 
-            try:
-                tt = booleval.truth_table(e.node, leaves, lambda x: (ast.unparse(x).replace(" ", "") if ast.unparse(x).replace(" ", "") in leaves and not isinstance(x, (ast.BoolOp,)) and not (isinstance(x, ast.UnaryOp)) else None))
-            except booleval.Unknown:
-                tt = None
+            # `other is self`: the same object has equal fields
+            same_obj = [ast.unparse(x).replace(" ", "") for x in leaf_nodes() if isinstance(x.ops[0], ast.Is) and {ast.unparse(x.left), ast.unparse(x.comparators[0])} == {me, ot}]
             if tt is not None:
+                same_idx = [leaves.index(a_) for a_ in same_obj if a_ in leaves]
                 for f in sorted({x.lstrip("_") for x in hr}):
                     atoms_f = [a_ for a_ in field_eq_atoms(f) if a_ in leaves]
                     if not atoms_f:
                         continue
                     idx = [leaves.index(a_) for a_ in atoms_f]
-                    bad_rows = [vals for vals, res_ in tt.items() if res_ and not any(vals[i_] for i_ in idx)]
+                    bad_rows = [vals for vals, res_ in tt.items() if res_ and not any(vals[i_] for i_ in idx) and not any(vals[i_] for i_ in same_idx)]
                     rep.check(not bad_rows, "C07.R6", "%s:eq-implies-equal:%s" % (cname, f), "whenever __eq__ answers True, `%s` was compared equal (the hash reads it)" % f,
                               "%s.__eq__ can answer True without `%s` having been compared equal (the comparison is conditional), while __hash__ always reads it: equal objects can have different hashes" % (cname, f), fn=e)
         if cname == "Quantity":
